@@ -202,8 +202,8 @@ fn run_temp(t: &[String]) -> String {
     let field = if t[1] == "ts" { "timestamp" } else { "created" };
     let p = parse_zones(&t[2]);
     let op = op_of(&t[3]);
-    let (lit, _) = scalar_of(&t[4]);
-    let lit = lit.expect("literal");
+    // one literal, or several separated by commas (the structures are built once, every literal is probed)
+    let lits: Vec<ScalarValue> = t[4].split(',').map(|x| scalar_of(x).0.expect("literal")).collect();
     let tmp = tempfile::tempdir().unwrap();
     let base: PathBuf = tmp.path().to_path_buf();
     let seg_dir = base.join(SEG);
@@ -227,15 +227,32 @@ fn run_temp(t: &[String]) -> String {
     zids.sort();
     zids.dedup();
     let mut zt = Vec::new();
+    // own: stored instants that the zone's own index (as built, saved and reloaded) does NOT contain
+    let mut own = 0usize;
     for z in zids {
         if let Ok(x) = ZoneTemporalIndex::load_for_field(UID, field, z, &seg_dir) {
             zt.push(format!("{}:{}:{}:{}", z, x.min_ts, x.max_ts, x.keys.iter().map(|k| k.to_string()).collect::<Vec<_>>().join(".")));
+            if let Some((_, cells)) = p.zones.iter().rev().find(|(z2, _)| *z2 == z) {
+                for c in cells.iter().flatten() {
+                    let v = match c {
+                        ScalarValue::Int64(i) => Some(*i),
+                        ScalarValue::Timestamp(i) => Some(*i),
+                        ScalarValue::Utf8(s) => s.parse::<i64>().ok().or_else(|| s.parse::<u64>().ok().map(|u| u as i64)),
+                        _ => None,
+                    };
+                    if let Some(v) = v {
+                        if !x.contains_ts(v) { own += 1; }
+                    }
+                }
+            }
         }
     }
     let pruner = TemporalPruner { artifacts: ZoneArtifacts { base_dir: &base, caches: None } };
-    let args = PruneArgs { segment_id: SEG, uid: UID, column: field, value: Some(&lit), op: Some(&op) };
-    let res = pruner.apply_temporal_only(&args);
-    format!("cal={} zti={} res={}", cal, zt.join(";"), show(res))
+    let res: Vec<String> = lits.iter().map(|lit| {
+        let args = PruneArgs { segment_id: SEG, uid: UID, column: field, value: Some(lit), op: Some(&op) };
+        show(pruner.apply_temporal_only(&args))
+    }).collect();
+    format!("cal={} zti={} res={} own={}", cal, zt.join(";"), res.join("|"), own)
 }
 
 fn key_of(v: &Option<ScalarValue>) -> String {
